@@ -303,7 +303,8 @@ func NewVaryHeaderNormalizer() VaryHeaderNormalizer {
 
 func normalizeVaryHeaderSeq2(vary string, reqHeader http.Header) iter.Seq2[string, string] {
 	return func(yield func(string, string) bool) {
-		for name := range TrimmedCSVCanonicalSeq(vary) {
+		for name := range fieldNameSeq(vary) {
+			name = http.CanonicalHeaderKey(name)
 			values := reqHeader[name]
 			value := ""
 			// an empty value is valid and means "no variation"
@@ -368,4 +369,19 @@ func makeVaryHash(vary map[string]string) uint64 {
 		_, _ = fmt.Fprintf(h, "%d:%s%d:%s", len(k), k, len(vary[k]), vary[k])
 	}
 	return h.Sum64()
+}
+
+// fieldNameSeq yields the members of a list of field names, as in Vary
+// ("*" / 1#field-name): split at every comma, trimmed, empty members skipped.
+// A field name is a token - there is no quoted-string in such a list - so a
+// stray quote in one member cannot reach over the comma and swallow the
+// names that follow it, as it would with [TrimmedCSVSeq].
+func fieldNameSeq(s string) iter.Seq[string] {
+	return func(yield func(string) bool) {
+		for member := range strings.SplitSeq(s, ",") {
+			if member = textproto.TrimString(member); member != "" && !yield(member) {
+				return
+			}
+		}
+	}
 }
